@@ -134,7 +134,13 @@ func (r *Report) finish() int {
 	}
 	if r.o.verbose {
 		for _, ob := range r.obls {
-			fmt.Printf("  %-10s %-12s %6.2fs  %s\n", ob.Res.status, ob.Res.solver, ob.Res.timeS, ob.ID)
+			extra := ""
+			if ob.Res.status != "unsat" {
+				for _, a := range ob.All {
+					extra += fmt.Sprintf(" [%s %s %.1fs]", a.solver, a.status, a.timeS)
+				}
+			}
+			fmt.Printf("  %-10s %-12s %6.2fs  %s%s\n", ob.Res.status, ob.Res.solver, ob.Res.timeS, ob.ID, extra)
 		}
 		for _, fr := range r.results {
 			if fr.ctx != nil {
